@@ -666,6 +666,13 @@ def r_scoring(ctx, tv, rule='S8-SCORE'):
             okp = any(scored_pair(p.arg_term(1)) for p in pushes)
             # ... for every candidate: no iteration of the scoring loop may skip the push (a dropped candidate is a missing result)
             nxs = [x for x in f.calls() if x.callee.endswith('Iterator::next') and tv.nns_term is not None and any(y == tv.nns_term for y in walk(strip_all(x.arg_term(0))))]
+            # (only the `next` of the loop the scoring call sits in: a later loop bounded by the number of candidates is not it)
+            inloop = set()
+            for h in f.dominators().get(c.bb, ()):
+                lp = paths.natural_loop(f, h)
+                if c.bb in lp:
+                    inloop |= set(lp)
+            nxs = [x for x in nxs if x.bb in inloop]
             good_p = [p for p in pushes if scored_pair(p.arg_term(1))]
             every = bool(nxs) and bool(good_p) and all(loop_every_iteration(f, x, good_p[0].bb) for x in nxs)
             ctx.check(every, 'S8-SCORE', f.path + '/every-candidate-scored', c.loc(), 'every deduplicated candidate is scored and queued for output',
